@@ -23,12 +23,13 @@ META = dict(
     rule="bounded grammar over an abstract config: 1-2 contexts x 1-2 streams x every subset of <=2 (thorough 3) entries "
          "from an 8-entry menu (gross_range [list params], spike [scalars], climatology [nested list of dicts], location "
          "[4-list + scalar], pressure_increasing [no parameters, spelt {} and null], valid_range [booleans], an unknown "
-         "test name, an unknown module) x window {absent, both bounds, starting only} x region {absent, GeoJSON "
+         "test name, an unknown module) x window {absent, both bounds, starting only, ending only, both with 'ending' written first} x region {absent, GeoJSON "
          "geometry, FeatureCollection}; each abstract config is rendered in every layout that can express it (contexts "
          "list / single context / bare stream mapping / bare module mapping) and every carrier (dict, OrderedDict, YAML "
          "text, JSON text, StringIO of both, str and Path to .yaml/.json files, xarray Dataset global attribute with "
          "YAML/JSON, Dataset per-variable attributes) and loaded by the real Config; Config.calls / .contexts / "
-         "Call.config() must equal the call set computed from the abstract config (one call per known (stream, module, "
+         "Call.config() must equal (also for three-context configs whose first and last context share a window, and for "
+         "load histories that rewrite the same file path with another config) the call set computed from the abstract config (one call per known (stream, module, "
          "test) with exactly the configured kwargs, window, region). non-trivial = not the plain dict contexts-list spelling",
     bounds={"quick": {"entries_per_stream": 2, "streams": 2, "contexts": 2}, "thorough": {"entries_per_stream": 3, "streams": 2, "contexts": 2}},
     not_judged=["unquoted YAML timestamps (become datetime objects)", "test parameters whose value is itself a mapping (no shipped test has one)"],
@@ -45,7 +46,8 @@ MENU = [
     ("qartod", "not_a_test", dict(x=1), False),
     ("not_a_module", "some_test", dict(y=[1, 2]), False),
 ]
-WINDOWS = [None, dict(starting="2020-01-01T00:00:00", ending="2020-04-01T00:00:00"), dict(starting="2021-06-01T12:30:00")]
+WINDOWS = [None, dict(starting="2020-01-01T00:00:00", ending="2020-04-01T00:00:00"), dict(starting="2021-06-01T12:30:00"),
+           dict(ending="2022-02-01T00:00:00"), dict(ending="2020-09-01T00:00:00", starting="2020-08-01T00:00:00")]  # ending only; ending written first
 POLY = dict(type="Polygon", coordinates=[[[-75.0, 40.0], [-70.0, 40.0], [-70.0, 45.0], [-75.0, 45.0], [-75.0, 40.0]]])
 POINT = dict(type="Point", coordinates=[-72.0, 42.0])
 REGIONS = [None, dict(type="Feature", properties={}, geometry=POLY),
@@ -228,9 +230,46 @@ def observe(cfg):
     return out
 
 
+def check_path_reuse(case):
+    """history: write config A to a path, load it, overwrite the same path with config B, load again"""
+    import importlib
+
+    from ioos_qc import config as cfgmod
+    from ioos_qc import utils
+
+    importlib.reload(utils)
+    cfgmod = importlib.reload(cfgmod)
+    fmt, kind = case["fmt"], case["kind_"]
+    p = os.path.join(tmpdir(), f"reuse_{os.getpid()}.{fmt}")
+    vs = []
+    obs = []
+    try:
+        for step, ast in enumerate(case["asts"]):
+            d = concrete(ast, "contexts")
+            with open(p, "w") as f:
+                f.write(yaml_text(d) if fmt == "yaml" else json.dumps(d))
+            cfg = alpha.call(cfgmod.Config, p if kind == "str" else Path(p))
+            exp = canon(expected_calls(ast, "contexts"))
+            if isinstance(cfg, alpha.Raised):
+                vs.append(V(f"{PROP}|path-reuse|load#{min(step, 1) + 1}|symptom=raises:{cfg.name}", f"Config(path) raised {cfg.name}: {cfg.msg}", exp, repr(cfg)))
+                break
+            got = canon(observe(cfg))
+            obs.append(tuple(got))
+            if got != exp:
+                vs.append(V(f"{PROP}|path-reuse|load#{min(step, 1) + 1}|symptom=stale-or-wrong-calls",
+                            f"Config(<same path>) after the file was rewritten returns calls that are not those of the file's current content", exp, got))
+                break
+    finally:
+        if os.path.exists(p):
+            os.remove(p)
+    return vs, True, tuple(obs), 0, len(case["asts"])
+
+
 def check_case(case):
     from ioos_qc.config import Config
 
+    if "asts" in case:
+        return check_path_reuse(case)
     ast, layout, carrier = case["ast"], case["layout"], case["carrier"]
     d = concrete(ast, layout)
     exp = expected_calls(ast, layout)
@@ -273,7 +312,8 @@ def check_case(case):
             vs.append(V(f"{PROP}|{shape_sig}|symptom=contexts-raises:{ctxs.name}", f"Config.contexts raised {ctxs.name}", None, repr(ctxs)))
         else:
             flat = [c for calls in ctxs.values() for c in calls]
-            if len(flat) != len(cfg.calls) or any(c.context != k for k, calls in ctxs.items() for c in calls):
+            if len(flat) != len(cfg.calls) or any(c.context != k for k, calls in ctxs.items() for c in calls) \
+                    or sorted(map(id, flat)) != sorted(map(id, cfg.calls)):
                 vs.append(V(f"{PROP}|{shape_sig}|symptom=contexts-grouping", "Config.contexts does not partition the calls by their context", len(cfg.calls), len(flat)))
         for c, o in zip(cfg.calls, got):
             cc = alpha.call(c.config)
@@ -315,6 +355,15 @@ def asts(tier):
                 continue
             for a in singles:
                 yield dict(contexts=[dict(window=w, region=r, streams={"v1": a})], null="null")
+    for w in (3, 4):
+        for r in (0, 1):
+            for a in singles[:12]:
+                yield dict(contexts=[dict(window=w, region=r, streams={"v1": a})], null="null")
+    # three contexts, the first and the last with the same window (calls of one context are not adjacent)
+    for a in singles[:10]:
+        for w1, w2 in ((1, 2), (0, 1), (3, 0), (4, 1)):
+            yield dict(contexts=[dict(window=w1, region=0, streams={"v1": a}), dict(window=w2, region=0, streams={"v1": [0]}),
+                                 dict(window=w1, region=0, streams={"v2": [1]})], null="null")
     # two contexts
     reps = [[0], [4], [1, 6], [2, 7], [3, 5], [4, 6]]
     for a in singles:
@@ -326,10 +375,32 @@ def asts(tier):
 def tasks(tier):
     n = sum(1 for _ in asts(tier))
     chunks = 64
-    return [("asts", tier, c, chunks) for c in range(chunks)] + [("n", n)][:0]
+    return [("asts", tier, c, chunks) for c in range(chunks)] + [("reuse", fmt, k) for fmt in ("yaml", "json") for k in ("str", "Path")]
+
+
+def _cleanup_tmp():
+    global _TMP
+    if _TMP and os.path.isdir(_TMP):
+        shutil.rmtree(_TMP, True)
+    _TMP = None
 
 
 def run_task(task, acc):
+    if task[0] == "reuse":
+        _, fmt, kind = task
+        small = [dict(contexts=[dict(window=w, region=0, streams={"v1": a})], null="null") for w in (0, 1) for a in ([0], [1], [4], [0, 1], [2, 5])]
+
+        def gen2():
+            for a in small:
+                for b in small:
+                    if a != b:
+                        yield dict(asts=[a, b], fmt=fmt, kind_=kind)
+                        yield dict(asts=[a, b, a], fmt=fmt, kind_=kind)
+        try:
+            run_cases(acc, gen2(), check_case)
+        finally:
+            _cleanup_tmp()
+        return
     _, tier, c, chunks = task
 
     def gen():
@@ -342,7 +413,4 @@ def run_task(task, acc):
     try:
         run_cases(acc, gen(), check_case)
     finally:
-        global _TMP
-        if _TMP and os.path.isdir(_TMP):
-            shutil.rmtree(_TMP, True)
-            _TMP = None
+        _cleanup_tmp()
